@@ -514,11 +514,9 @@ class OperatorFreshness(Base):
         else:
             Atot = A
         U = np.exp(-1j * np.sum(Atot * g.dirs, axis=1))
-        # admissible staleness: one step's allclose skip (rtol 1e-5, atol 1e-8 per component)
-        tol = 10 * np.sum((1e-8 + 1e-5 * np.abs(A)) * np.abs(g.dirs), axis=1) + 1e-12
-        if self.solver.options.include_screening:
-            # with screening the operators are refreshed at every iteration with the exact current potential
-            tol = np.full(g.m, 1e-10)
+        # the operators must hold the potential in force exactly (they are refreshed whenever the applied
+        # potential changes at all, and at every screening iteration): only rounding is admitted
+        tol = np.full(g.m, 1e-10)
         L = self.sp.csr_matrix(kw["psi_laplacian"])
         e0, e1 = g.edges[:, 0], g.edges[:, 1]
         fixed = np.zeros(g.n, dtype=bool)
